@@ -60,8 +60,10 @@ Definition parse_decimal (s : string) : option (Z * Z) :=
       end
   end.
 
-Definition dec_integral (m e : Z) : bool := let '(_, b) := num_norm m e in Z.leb 0 b.
-Definition dec_int_value (m e : Z) : Z := let '(a, b) := num_norm m e in (a * 10 ^ b)%Z.
+(* m * 10^e is an integer; its value *)
+Definition dec_integral (m e : Z) : bool := if Z.leb 0 e then true else let '(_, b) := num_norm m e in Z.leb 0 b.
+Definition dec_int_value (m e : Z) : Z :=
+  if Z.leb 0 e then (m * 10 ^ e)%Z else let '(a, b) := num_norm m e in (a * 10 ^ b)%Z.
 
 (* ---------- the JSON value a Go `any` default denotes ---------- *)
 Definition opt_map {A B} (f : A -> B) (o : option A) : option B := match o with Some a => Some (f a) | None => None end.
@@ -275,6 +277,102 @@ Definition needs_explicit_default (rt : ty) (f : field) (extra : list (string * 
    || is_concrete_scalar ft
    || is_constref ft)%bool.
 
+(* one field of defaultsForStruct, parameterised by the recursive call (nested struct literals / NewX()) *)
+Definition go_field_value (ctx : schemas) (dfs : list field -> list (string * dyn) -> cres gval)
+           (extra : list (string * dyn)) (f : field) : cres gval :=
+  let ft := f_type f in
+  let d := dflt (ty_attrs ft) in
+  let nl := t_nullable ft in
+  match resolve ctx ft with
+  | None => CUnm "reference cycle"
+  | Some rt =>
+      if negb (needs_explicit_default rt f extra) then COk (zero ctx ft)
+      else
+        match alist_find extra (f_name f) with
+        | Some x =>
+            if (is_ref ft && is_disj_struct rt)%bool then
+              match rt with
+              | TStruct _ _ bfs =>
+                  let br := match field_by_name bfs (branch_name x) with
+                            | Some b => Some b
+                            | None => field_by_name bfs "Any"
+                            end in
+                  match br with
+                  | None => CNoCompile "no disjunction branch for the default"
+                  | Some b =>
+                      match resolve ctx (f_type b) with
+                      | None => CUnm "reference cycle"
+                      | Some bt =>
+                          cbind (assign (non_null bt) (format_scalar x)) (fun v =>
+                            let s := GStruct (map (fun g => (f_name g,
+                                       if seqb (f_name g) (f_name b) then as_pointer true bt v else GNil)) bfs) in
+                            COk (if nl then GPtr s else s))
+                      end
+                  end
+              | _ => CUnm "disjunction struct"
+              end
+            else if (nl && is_enum rt)%bool then
+              (* maybeValueAsPointer prints formatType(<resolved enum type>) = "unknown" as the pointer's type *)
+              CNoCompile "pointer helper over the placeholder type `unknown`"
+            else cbind (assign (non_null rt) (format_scalar x)) (fun v => COk (as_pointer nl rt v))
+        | None =>
+            if is_concrete_scalar ft then
+              match ft with
+              | TScalar _ _ v _ => cbind (assign (non_null rt) (format_scalar v)) (fun v => COk (as_pointer nl rt v))
+              | _ => CUnm "concrete scalar"
+              end
+            else if ((is_scalar rt || is_map rt || is_array rt) && negb (dyn_is_nil d))%bool then
+              cbind (assign (non_null rt) (format_scalar d)) (fun v => COk (as_pointer nl rt v))
+            else if (is_ref ft && is_struct rt && negb (dyn_is_nil d))%bool then
+              match rt with
+              | TStruct _ _ sfs =>
+                  cbind (dfs sfs (match d with DMap kvs => kvs | _ => [] end))
+                        (fun v => COk (if nl then GPtr v else v))
+              | _ => CUnm "struct"
+              end
+            else if (is_ref ft && is_struct rt)%bool then
+              match ft with
+              | TRef _ p n =>
+                  match ctor_fields ctx p n with
+                  | None => CNoCompile "undefined constructor"
+                  | Some sfs => cbind (dfs sfs []) (fun v => COk (if nl then GPtr v else v))
+                  end
+              | _ => CUnm "ref"
+              end
+            else if (is_ref ft && is_enum rt)%bool then
+              match rt with
+              | TEnum _ vs =>
+                  let m := match find (fun ev => dyn_eqb (ev_value ev) d) vs with
+                           | Some ev => Some ev
+                           | None => match vs with ev :: _ => Some ev | [] => None end
+                           end in
+                  match m with
+                  | None => CUnm "empty enum"
+                  | Some ev => cbind (dyn_of_enum_member vs (ev_value ev)) (fun v => COk (as_pointer nl ft v))
+                  end
+              | _ => CUnm "enum"
+              end
+            else if is_constref ft then
+              match ft with
+              | TConstRef _ p n cv =>
+                  match resolve ctx (TRef attrs0 p n) with
+                  | Some (TEnum _ vs) =>
+                      match find (fun ev => dyn_eqb (ev_value ev) cv) vs with
+                      | Some ev => dyn_of_enum_member vs (ev_value ev)
+                      | None => CNoCompile "no enum member for the constant reference"
+                      end
+                  | _ => CUnm "constant reference to a non-enum (the loop over the fields stops)"
+                  end
+              | _ => CUnm "constant ref"
+              end
+            else if is_array ft then COk (GSlice [])
+            else if is_map ft then COk (GMap [])
+            else cbind (assign (non_null rt) (LStr unsupported_text)) (fun v => COk v)
+        end
+  end.
+
+Definition mk_gstruct (fs : list field) (vs : list gval) : gval := GStruct (combine (map (@f_name ty) fs) vs).
+
 (* defaultsForStruct.  fuel bounds the nesting of constructor calls (NewX() inside NewY() ...): a
    required reference cycle makes the real constructor recurse forever; the model answers CUnm. *)
 Fixpoint defaults_for_struct (ctx : schemas) (fuel : nat) (fs : list field) (extra : list (string * dyn))
@@ -282,99 +380,8 @@ Fixpoint defaults_for_struct (ctx : schemas) (fuel : nat) (fs : list field) (ext
   match fuel with
   | O => CUnm "constructor nesting exceeds the fuel (required reference cycle?)"
   | S fuel' =>
-      let one := fun f : field =>
-        let ft := f_type f in
-        let d := dflt (ty_attrs ft) in
-        let nl := t_nullable ft in
-        match resolve ctx ft with
-        | None => CUnm "reference cycle"
-        | Some rt =>
-            if negb (needs_explicit_default rt f extra) then COk (zero ctx ft)
-            else
-              match alist_find extra (f_name f) with
-              | Some x =>
-                  if (is_ref ft && is_disj_struct rt)%bool then
-                    match rt with
-                    | TStruct _ _ bfs =>
-                        let br := match field_by_name bfs (branch_name x) with
-                                  | Some b => Some b
-                                  | None => field_by_name bfs "Any"
-                                  end in
-                        match br with
-                        | None => CNoCompile "no disjunction branch for the default"
-                        | Some b =>
-                            match resolve ctx (f_type b) with
-                            | None => CUnm "reference cycle"
-                            | Some bt =>
-                                cbind (assign (non_null bt) (format_scalar x)) (fun v =>
-                                  let s := GStruct (map (fun g => (f_name g,
-                                             if seqb (f_name g) (f_name b) then as_pointer true bt v else GNil)) bfs) in
-                                  COk (if nl then GPtr s else s))
-                            end
-                        end
-                    | _ => CUnm "disjunction struct"
-                    end
-                  else if (nl && is_enum rt)%bool then
-                    (* maybeValueAsPointer prints formatType(<resolved enum type>) = "unknown" as the pointer's type *)
-                    CNoCompile "pointer helper over the placeholder type `unknown`"
-                  else cbind (assign (non_null rt) (format_scalar x)) (fun v => COk (as_pointer nl rt v))
-              | None =>
-                  if is_concrete_scalar ft then
-                    match ft with
-                    | TScalar _ _ v _ => cbind (assign (non_null rt) (format_scalar v)) (fun v => COk (as_pointer nl rt v))
-                    | _ => CUnm "concrete scalar"
-                    end
-                  else if ((is_scalar rt || is_map rt || is_array rt) && negb (dyn_is_nil d))%bool then
-                    cbind (assign (non_null rt) (format_scalar d)) (fun v => COk (as_pointer nl rt v))
-                  else if (is_ref ft && is_struct rt && negb (dyn_is_nil d))%bool then
-                    match rt with
-                    | TStruct _ _ sfs =>
-                        cbind (defaults_for_struct ctx fuel' sfs (match d with DMap kvs => kvs | _ => [] end))
-                              (fun v => COk (if nl then GPtr v else v))
-                    | _ => CUnm "struct"
-                    end
-                  else if (is_ref ft && is_struct rt)%bool then
-                    match ft with
-                    | TRef _ p n =>
-                        match ctor_fields ctx p n with
-                        | None => CNoCompile "undefined constructor"
-                        | Some sfs => cbind (defaults_for_struct ctx fuel' sfs []) (fun v => COk (if nl then GPtr v else v))
-                        end
-                    | _ => CUnm "ref"
-                    end
-                  else if (is_ref ft && is_enum rt)%bool then
-                    match rt with
-                    | TEnum _ vs =>
-                        let m := match find (fun ev => dyn_eqb (ev_value ev) d) vs with
-                                 | Some ev => Some ev
-                                 | None => match vs with ev :: _ => Some ev | [] => None end
-                                 end in
-                        match m with
-                        | None => CUnm "empty enum"
-                        | Some ev => cbind (dyn_of_enum_member vs (ev_value ev)) (fun v => COk (as_pointer nl ft v))
-                        end
-                    | _ => CUnm "enum"
-                    end
-                  else if is_constref ft then
-                    match ft with
-                    | TConstRef _ p n cv =>
-                        match resolve ctx (TRef attrs0 p n) with
-                        | Some (TEnum _ vs) =>
-                            match find (fun ev => dyn_eqb (ev_value ev) cv) vs with
-                            | Some ev => dyn_of_enum_member vs (ev_value ev)
-                            | None => CNoCompile "no enum member for the constant reference"
-                            end
-                        | _ => CUnm "constant reference to a non-enum (the loop over the fields stops)"
-                        end
-                    | _ => CUnm "constant ref"
-                    end
-                  else if is_array ft then COk (GSlice [])
-                  else if is_map ft then COk (GMap [])
-                  else cbind (assign (non_null rt) (LStr unsupported_text)) (fun v => COk v)
-              end
-        end in
-      match call (map one fs) with
-      | COk vs => COk (GStruct (combine (map (@f_name ty) fs) vs))
+      match call (map (go_field_value ctx (defaults_for_struct ctx fuel') extra) fs) with
+      | COk vs => COk (mk_gstruct fs vs)
       | CNoCompile w => CNoCompile w
       | CUnm w => CUnm w
       end
